@@ -1,5 +1,391 @@
-import Plonk.Model.Composer
+/-
+  Property C14 — fixed-base multiplication returns `[s]G` for canonical `s` only.
+
+  Conventions.  `c` is the composer state before the call, `(res, c')` the result of running the
+  model's function on `c`, `w : Nat → Nat` an arbitrary assignment of values to witness indices
+  (everything a prover may choose: all accumulators, all digits), `c''` any later state
+  (`Extends c' c''`), `c''.rowsHoldW w c.gates.size c'.gates.size` says that the rows appended by
+  the call hold under `w`, `toF : Nat → F = ZMod R` interprets values in the BLS scalar field,
+  `smulF n P` is the `n`-fold sum of `P` under the field-level twisted Edwards addition law `addF`
+  (`EdwardsGroup.lean`), `sdPointF G d n k` the iterated Edwards sum
+  `Σ_{i<k} d_(n−1−i) • [2^(n−1−i)]G` of the first `k` ladder rounds (`FixedBase.lean`).
+
+  Everything is proved at full strength; there is no `_partial` theorem.  The group-law corollary
+  ("the returned point is `[s]G`") is **unconditional**: it needs associativity of the addition
+  law, which is proved in `EdwardsAssoc.lean`; the hypothesis structure `JubjubGroupFacts` (group
+  order) is *not* used anywhere in this file.
+
+  Forced hypotheses (findings; none of them is a defect of the Rust code):
+    * `WF c` (every stored witness value is reduced and no public input is recorded for a row that
+      does not exist yet): an invariant of every state reachable from `initialized`
+      (`initialized_wf`, preserved: `fixedBase_extends`).
+    * `toF (w 0) = 0` in the soundness statements: the padding slots of the two range checks are
+      wired to the constant-zero witness (index 0), whose value is pinned by row 0 of
+      `Composer::initialized()`, not by the component.
+    * `digits.length = 256`: in Rust the digit vector has type `&[i8; 256]`; the model takes a
+      list, and a shorter list would move the closing row (`rows.length`), so the layout would no
+      longer be the one of the widget.
+    * completeness: `s < c.wit.size` (the scalar witness was allocated), `c.val 0 = 0`.
+    * the generator only has to be *on the curve* for soundness and completeness of the rows;
+      prime order is checked by the host (`mulGenerator_error_iff`) and is what makes the result a
+      subgroup element, but no row depends on it.
+  Remark (not a soundness issue): on the error `UnsupportedWNAF2k` of
+  `append_fixed_base_signed_digits` (a digit outside `{−1,0,1}`; unreachable from
+  `component_mul_generator`, whose NAF digits are always admissible) the canonical-scalar rows
+  have already been appended — the state is *not* unchanged (`fixedBase_bad_digits`).  The two
+  errors of `component_mul_generator` leave the state unchanged (`mulGenerator_error_iff`).
+-/
+import Plonk.Proofs.FixedBase
+import Plonk.Proofs.EdwardsExamples
 namespace Plonk.Props.C14
-open Plonk
-theorem placeholder_consts : Generated.JUBJUB_SCALAR_BITS = 252 ∧ Generated.FIXED_BASE_LEADING_ZERO_ROUNDS = 3 ∧ Generated.MUL_POINT_BITS = 252 := by decide
+open Plonk Plonk.Composer
+
+/-! ## the canonical-scalar gadget -/
+
+/-- `assert_canonical_jubjub_scalar` only appends: 69 gates (two 252-bit range checks of 34 gates
+    and the distance gate) and 253 witnesses; no public input; the last gate is plain; `WF` is
+    preserved. -/
+theorem assertCanonicalJubjubScalar_extends (c : Composer) (s : Nat) :
+    let c' := ((assertCanonicalJubjubScalar s).run c).2
+    Extends c c' ∧ c'.gates.size = c.gates.size + 69 ∧ c'.wit.size = c.wit.size + 253 ∧
+    c'.pis = c.pis ∧ (∀ i, i + 1 = c'.gates.size → Gate.plain (c'.gateAt i)) ∧
+    (WF c → WF c') := by
+  intro c'
+  have e : c' = canonOut c s JUBJUB_SCALAR_BITS := by
+    show ((assertCanonicalJubjubScalar s).run c).2 = _
+    rw [assertCanonicalJubjubScalar_eq, canonM_run]
+  rw [e]
+  exact ⟨canonOut_extends c s _, canonOut_gates_size c s _, canonOut_wit_size c s _,
+    canonOut_pis c s _, canonOut_last_plain c s _, canonOut_wf c s _ scalar_bits_even⟩
+
+/-- **Soundness of `assert_canonical_jubjub_scalar`.**  For every assignment `w` with the zero
+    witness equal to `0`: if the rows appended by the gadget hold under `w` (read in `c'` or in any
+    later state), the canonical value of the scalar witness is below the subgroup order `r_J`. -/
+theorem assertCanonicalJubjubScalar_sound (c : Composer) (s : Nat) (hwf : WF c)
+    (c'' : Composer) (hext : Extends ((assertCanonicalJubjubScalar s).run c).2 c'')
+    (w : Nat → Nat) (h0 : toF (w 0) = 0)
+    (h : c''.rowsHoldW w c.gates.size ((assertCanonicalJubjubScalar s).run c).2.gates.size) :
+    (toF (w s)).val < RJ := by
+  have e : ((assertCanonicalJubjubScalar s).run c).2 = canonOut c s JUBJUB_SCALAR_BITS := by
+    rw [assertCanonicalJubjubScalar_eq, canonM_run]
+  rw [e] at hext h
+  exact Composer.assertCanonicalJubjubScalar_sound c s hwf c'' hext w h0 h
+
+/-- **Completeness of `assert_canonical_jubjub_scalar`.**  When the stored scalar is below `r_J`
+    the model's own witness table (read in any later state) satisfies the rows of the gadget. -/
+theorem assertCanonicalJubjubScalar_complete (c : Composer) (s : Nat) (hwf : WF c)
+    (hs : s < c.wit.size) (hz : c.val 0 = 0) (hv : c.val s < RJ)
+    (c'' : Composer) (hext : Extends ((assertCanonicalJubjubScalar s).run c).2 c'') :
+    c''.rowsHoldW c''.val c.gates.size ((assertCanonicalJubjubScalar s).run c).2.gates.size := by
+  have e : ((assertCanonicalJubjubScalar s).run c).2 = canonOut c s JUBJUB_SCALAR_BITS := by
+    rw [assertCanonicalJubjubScalar_eq, canonM_run]
+  rw [e] at hext ⊢
+  exact Composer.assertCanonicalJubjubScalar_complete c s hwf hs hz hv c'' hext
+
+/-- non-vacuity: on `initialized`, witness 2 holds `6 < r_J`; the honest table satisfies the rows
+    and soundness applies to it. -/
+example : (toF (((assertCanonicalJubjubScalar 2).run initialized).2.val 2)).val < RJ :=
+  assertCanonicalJubjubScalar_sound initialized 2 initialized_wf _ (Extends.refl _) _
+    (by rw [(assertCanonicalJubjubScalar_extends initialized 2).1.val_eq (by decide)]; rfl)
+    (assertCanonicalJubjubScalar_complete initialized 2 initialized_wf (by decide) (by decide)
+      (by decide +kernel) _ (Extends.refl _))
+
+/-! ## what `append_fixed_base_signed_digits` appends -/
+
+/-- **Framing and layout.**  With admissible digits the call succeeds and only appends:
+    `69 + 3 + 256 + 3 = 331` gates and `253 + 4·256 + 3 = 1280` witnesses, no public input, last
+    gate plain, `WF` preserved.  The ladder's witnesses start at `base = c.wit.size + 253`
+    (round `i`: `acc_x, acc_y, accumulated_bit, xy_alpha` at `base + 4i ..`), and the returned
+    point is the pair of final accumulators `(base + 1024, base + 1025)`. -/
+theorem fixedBase_extends (c : Composer) (s : Nat) (g : Pt) (digits : List Int)
+    (hd : ValidDigits digits) :
+    let r := (appendFixedBaseSignedDigits s g digits).run c
+    r.1 = .ok (c.wit.size + 253 + 1024, c.wit.size + 253 + 1025) ∧
+    Extends c r.2 ∧ r.2.gates.size = c.gates.size + 331 ∧ r.2.wit.size = c.wit.size + 1280 ∧
+    r.2.pis = c.pis ∧ (∀ i, i + 1 = r.2.gates.size → Gate.plain (r.2.gateAt i)) ∧
+    (WF c → WF r.2) := by
+  obtain ⟨hlen, hbad⟩ := (validDigits_iff digits).mp hd
+  intro r
+  have e : r = (.ok (fbBase c s + 4 * fbN, fbBase c s + 4 * fbN + 1), fbState c s g digits) :=
+    appendFixedBaseSignedDigits_ok s g digits c hbad hlen
+  have hb : fbBase c s = c.wit.size + 253 := canonOut_wit_size c s _
+  rw [e, hb]
+  exact ⟨rfl, fbState_extends c s g digits, fbState_gates_size c s g digits,
+    fbState_wit_size c s g digits hlen, fbState_pis c s g digits,
+    fbState_last_plain c s g digits, fbState_wf c s g digits⟩
+
+/-- With an inadmissible digit the call fails with `UnsupportedWNAF2k` — *after* the
+    canonical-scalar rows have been appended (the state is the one after
+    `assert_canonical_jubjub_scalar`, not `c`). -/
+theorem fixedBase_bad_digits (c : Composer) (s : Nat) (g : Pt) (digits : List Int)
+    (hbad : ∃ d ∈ digits, d ≠ 0 ∧ d ≠ 1 ∧ d ≠ -1) :
+    (appendFixedBaseSignedDigits s g digits).run c =
+      (.error .unsupportedWnaf, ((assertCanonicalJubjubScalar s).run c).2) := by
+  have hb : digitsBad digits = true := by
+    unfold digitsBad
+    rw [List.any_eq_true]
+    obtain ⟨d, hd, h0, h1, h2⟩ := hbad
+    exact ⟨d, hd, by simp [h0, h1, h2]⟩
+  rw [appendFixedBaseSignedDigits_bad s g digits c hb, assertCanonicalJubjubScalar_eq, canonM_run]
+
+/-- non-vacuity: the NAF of any scalar is admissible; a vector containing `2` is not, and then
+    the state has grown by the 69 canonical-scalar gates. -/
+example (k : Nat) : ValidDigits (wnaf2 k) :=
+  (validDigits_iff _).mpr ⟨wnaf2_length k, wnaf2_not_bad k⟩
+example : ∃ c', (appendFixedBaseSignedDigits 2 exG [2]).run initialized
+      = (.error .unsupportedWnaf, c') ∧ c'.gates.size = initialized.gates.size + 69 :=
+  ⟨_, fixedBase_bad_digits initialized 2 exG [2] ⟨2, by simp, by decide, by decide, by decide⟩,
+    (assertCanonicalJubjubScalar_extends initialized 2).2.1⟩
+
+/-! ## soundness of the ladder -/
+
+open Finset in
+/-- **Soundness of `append_fixed_base_signed_digits`**, for *every* assignment.
+    Let the generator `g` be on the curve and the host digits admissible (they only fix the
+    layout; their values play no role).  If an assignment `w` (zero witness `0`) satisfies all rows
+    appended by the call, then with `base = c.wit.size + 253`:
+    * the scalar witness is canonical: `(toF (w s)).val < r_J`;
+    * there are integer digits `d_i ∈ {−1, 0, 1}`, `i < 256`, **extracted from `w`** (they are the
+      increments `acc_bit(i+1) − 2·acc_bit(i)` of the scalar accumulator, most significant first),
+      whose `FIXED_BASE_LEADING_ZERO_ROUNDS = 3` leading ones vanish and which recompose the
+      scalar **over ℤ**: `Σ d_i·2^i = (toF (w s)).val` — no wrap modulo `r`, so no digit vector
+      encodes `s + k·r` or `s + k·r_J` for `k ≠ 0`;
+    * the point accumulator of every round `k ≤ 256` is the iterated Edwards sum
+      `Σ_{i<k} d_(255−i) • [2^(255−i)]g`;
+    * the returned point `(base + 1024, base + 1025)` carries exactly `[s]g`
+      (`smulF (toF (w s)).val (toFP g)`): it is the same for every admissible digit vector, not
+      only for the NAF, and it is unique. -/
+theorem fixedBase_sound (c : Composer) (s : Nat) (g : Pt) (digits : List Int) (hwf : WF c)
+    (hg : onCurve g = true) (hd : ValidDigits digits)
+    (c'' : Composer) (hext : Extends ((appendFixedBaseSignedDigits s g digits).run c).2 c'')
+    (w : Nat → Nat) (h0 : toF (w 0) = 0)
+    (h : c''.rowsHoldW w c.gates.size ((appendFixedBaseSignedDigits s g digits).run c).2.gates.size) :
+    let base := c.wit.size + 253
+    (toF (w s)).val < RJ ∧
+    ∃ d : Nat → ℤ,
+      (∀ i < 256, d i = -1 ∨ d i = 0 ∨ d i = 1) ∧
+      (∀ i < 256, toF (w (base + 4 * (i + 1) + 2)) - 2 * toF (w (base + 4 * i + 2))
+          = ((d (255 - i) : ℤ) : F)) ∧
+      (∀ j < Generated.FIXED_BASE_LEADING_ZERO_ROUNDS, d (255 - j) = 0) ∧
+      (∑ i ∈ range 256, d i * 2 ^ i = ((toF (w s)).val : ℤ)) ∧
+      (∀ k ≤ 256, (toF (w (base + 4 * k)), toF (w (base + 4 * k + 1)))
+          = sdPointF (toFP g) d 256 k) ∧
+      (toF (w (base + 1024)), toF (w (base + 1025))) = smulF (toF (w s)).val (toFP g) := by
+  obtain ⟨hlen, hbad⟩ := (validDigits_iff digits).mp hd
+  rw [appendFixedBaseSignedDigits_ok s g digits c hbad hlen] at hext h
+  have hb : fbBase c s = c.wit.size + 253 := canonOut_wit_size c s _
+  have := Composer.fixedBase_sound c s g digits hwf hg hlen c'' hext w h0 h
+  rw [hb] at this
+  exact this
+
+/-- the field-level iterated sum is the scalar multiple by the accumulated integer, and the
+    full sum of any digit function is `[Σ d_i·2^i]G` — the group-law step of `fixedBase_sound`,
+    stated on its own (unconditional: associativity is proved). -/
+theorem ladder_sum_is_scalar_mul {G : PtF} (hG : OnCurveP G) (d : Nat → ℤ) (n : Nat) :
+    sdPointF G d n n = zsmulF (∑ i ∈ Finset.range n, d i * 2 ^ i) G := by
+  rw [sdPointF_eq hG, sdPartZ_full]
+
+/-- non-vacuity of `ladder_sum_is_scalar_mul`: a curve point exists -/
+example : OnCurveP (toFP exG) := (onCurve_iff_P exG).mp exG_on_curve
+
+/-! ## completeness of the ladder -/
+
+/-- **Completeness of `append_fixed_base_signed_digits`.**  For a stored scalar below `r_J`, an
+    on-curve generator and the digits the host actually uses (`wnaf2` of the stored scalar), the
+    model's own witness table — read in `c'` or any later state — satisfies all rows. -/
+theorem fixedBase_complete (c : Composer) (s : Nat) (g : Pt) (hwf : WF c)
+    (hs : s < c.wit.size) (hz : c.val 0 = 0) (hg : onCurve g = true) (hv : c.val s < RJ)
+    (c'' : Composer)
+    (hext : Extends ((appendFixedBaseSignedDigits s g (wnaf2 (c.val s))).run c).2 c'') :
+    c''.rowsHoldW c''.val c.gates.size
+      ((appendFixedBaseSignedDigits s g (wnaf2 (c.val s))).run c).2.gates.size := by
+  rw [appendFixedBaseSignedDigits_ok s g _ c (wnaf2_not_bad _) (wnaf2_length _)] at hext ⊢
+  exact fixedBase_complete_naf c s g hwf hs hz hg hv c'' hext
+
+/-- the same for *any* admissible digit vector that recomposes the scalar with three leading
+    zero rounds (`sdAccZ d 256 k` is the integer accumulator after `k` rounds, most significant
+    digit first) -/
+theorem fixedBase_complete_digits (c : Composer) (s : Nat) (g : Pt) (digits : List Int)
+    (hwf : WF c) (hs : s < c.wit.size) (hz : c.val 0 = 0) (hg : onCurve g = true)
+    (hd : ValidDigits digits)
+    (hLz : sdAccZ (fun i => digits.getD i 0) 256 Generated.FIXED_BASE_LEADING_ZERO_ROUNDS = 0)
+    (hfin : sdAccZ (fun i => digits.getD i 0) 256 256 = (c.val s : ℤ))
+    (hv : c.val s < RJ) (c'' : Composer)
+    (hext : Extends ((appendFixedBaseSignedDigits s g digits).run c).2 c'') :
+    c''.rowsHoldW c''.val c.gates.size
+      ((appendFixedBaseSignedDigits s g digits).run c).2.gates.size := by
+  obtain ⟨hlen, hbad⟩ := (validDigits_iff digits).mp hd
+  rw [appendFixedBaseSignedDigits_ok s g digits c hbad hlen] at hext ⊢
+  refine Composer.fixedBase_complete c s g digits hwf hs hz hg hlen ?_ hLz hfin hv c'' hext
+  intro i
+  by_cases hi : i < digits.length
+  · rw [List.getD_eq_getElem _ _ hi]; exact hd.2 _ (List.getElem_mem hi)
+  · rw [List.getD_eq_default _ _ (by omega)]; exact Or.inr (Or.inl rfl)
+
+/-- non-vacuity (and the two theorems together): on `initialized` with scalar witness 2 (value
+    `6 < r_J`) and the curve point `exG`, the honest table satisfies the rows, hence by soundness
+    the returned point carries `[6]·exG`. -/
+example :
+    let c' := ((appendFixedBaseSignedDigits 2 exG (wnaf2 (initialized.val 2))).run initialized).2
+    (toF (c'.val (initialized.wit.size + 253 + 1024)),
+      toF (c'.val (initialized.wit.size + 253 + 1025))) = smulF 6 (toFP exG) := by
+  intro c'
+  have hd : ValidDigits (wnaf2 (initialized.val 2)) :=
+    (validDigits_iff _).mpr ⟨wnaf2_length _, wnaf2_not_bad _⟩
+  have hx := (fixedBase_extends initialized 2 exG _ hd).2.1
+  have h6 : initialized.val 2 = 6 := by decide +kernel
+  have hrows := fixedBase_complete initialized 2 exG initialized_wf (by decide) (by decide)
+    exG_on_curve (by decide +kernel) _ (Extends.refl _)
+  have hs := fixedBase_sound initialized 2 exG _ initialized_wf exG_on_curve hd _ (Extends.refl _)
+    _ (by rw [hx.val_eq (by decide)]; rfl) hrows
+  obtain ⟨-, d, -, -, -, -, -, hpt⟩ := hs
+  rw [hx.val_eq (show 2 < initialized.wit.size by decide), h6] at hpt
+  have : (toF 6).val = 6 := val_toF_of_lt (by decide +kernel)
+  rw [this] at hpt
+  exact hpt
+
+/-! ## `component_mul_generator` -/
+
+/-- **Host-side decision logic of `component_mul_generator`.**
+    * `JubJubGeneratorNotPrimeOrder` is returned iff `Z = 0`, or the point is not on the curve, or
+      it is not of prime order;
+    * `JubJubScalarMalformed` is returned iff the generator is accepted and the stored scalar is
+      `≥ r_J`;
+    * in both cases the composer state is unchanged;
+    * otherwise the call succeeds (no other error is possible: the NAF digits are admissible) and
+      behaves as `append_fixed_base_signed_digits` on the affine generator and the NAF of the
+      stored scalar. -/
+theorem mulGenerator_error_iff (c : Composer) (s : Nat) (gen : Ext) :
+    let r := (componentMulGenerator s gen).run c
+    (r.1 = .error .generatorNotPrime ↔
+      (gen.z = 0 ∨ gen.onCurve = false ∨ gen.primeOrder = false)) ∧
+    (r.1 = .error .scalarMalformed ↔
+      ((gen.z ≠ 0 ∧ gen.onCurve = true ∧ gen.primeOrder = true) ∧ RJ ≤ c.val s)) ∧
+    ((∃ e, r.1 = .error e) → r.2 = c) ∧
+    ((gen.z ≠ 0 ∧ gen.onCurve = true ∧ gen.primeOrder = true) → c.val s < RJ →
+      r = (appendFixedBaseSignedDigits s (genAffine gen) (wnaf2 (c.val s))).run c ∧
+      ∃ p, r.1 = .ok p) := by
+  intro r
+  have hr : r = _ := componentMulGenerator_run s gen c
+  have hk := genOk_iff gen
+  by_cases h1 : genOk gen = true
+  · have h1' := hk.mp h1
+    have hne : ¬ (gen.z = 0 ∨ gen.onCurve = false ∨ gen.primeOrder = false) := by
+      rintro (h | h | h) <;> simp [h] at h1'
+    by_cases h2 : RJ ≤ c.val s
+    · rw [if_neg (by simp [h1]), if_pos h2] at hr
+      rw [hr]
+      refine ⟨⟨fun h => by simp at h, fun h => absurd h hne⟩, ⟨fun _ => ⟨h1', h2⟩, fun _ => rfl⟩,
+        fun _ => rfl, fun _ h => absurd h2 (by omega)⟩
+    · rw [if_neg (by simp [h1]), if_neg h2] at hr
+      rw [hr]
+      refine ⟨⟨fun h => by simp at h, fun h => absurd h hne⟩,
+        ⟨fun h => by simp at h, fun h => absurd h.2 h2⟩, fun ⟨e, he⟩ => by simp at he,
+        fun _ _ => ⟨?_, _, rfl⟩⟩
+      exact (appendFixedBaseSignedDigits_ok s _ _ c (wnaf2_not_bad _) (wnaf2_length _)).symm
+  · have h1f : genOk gen = false := by simpa using h1
+    have hbad : gen.z = 0 ∨ gen.onCurve = false ∨ gen.primeOrder = false := by
+      by_contra hc
+      apply h1
+      rw [hk]
+      refine ⟨fun h => hc (Or.inl h), ?_, ?_⟩
+      · cases h : gen.onCurve
+        · exact absurd (Or.inr (Or.inl h)) hc
+        · rfl
+      · cases h : gen.primeOrder
+        · exact absurd (Or.inr (Or.inr h)) hc
+        · rfl
+    rw [if_pos h1f] at hr
+    rw [hr]
+    refine ⟨⟨fun _ => hbad, fun _ => rfl⟩, ⟨fun h => by simp at h, fun h => ?_⟩, fun _ => rfl,
+      fun h => ?_⟩
+    · exact absurd (hk.mpr h.1) h1
+    · exact absurd (hk.mpr h) h1
+
+/-- non-vacuity: the extended form of `exG` is an accepted generator (on the curve, `Z = 1`,
+    prime order), the identity is rejected. -/
+example : genOk (Ext.ofAffine exG) = true ∧ genOk Ext.id = false := by decide +kernel
+
+/-- **C14, property form.**  Let `component_mul_generator(s, gen)` be called in a well-formed
+    state in which the scalar witness `s` is allocated and the zero witness holds `0`.
+    * If the call succeeds — i.e. (`mulGenerator_error_iff`) the generator is accepted and the
+      stored scalar is canonical — then with `G` the affine generator and `p` the returned point:
+      (completeness) the model's own table satisfies the appended rows, and (soundness) **every**
+      assignment `w` satisfying them has a canonical scalar, `(toF (w s)).val < r_J`, and carries
+      exactly `[(toF (w s)).val]·G` on `p`.  Hence no signed-digit assignment whatsoever — in
+      particular none encoding the scalar plus a multiple of `r` or `r_J` — yields another point.
+    * Conversely the rows cannot be satisfied with a non-canonical scalar witness (first
+      conclusion of the soundness part), and the host refuses to build the circuit for one. -/
+theorem mulGenerator_exact (c : Composer) (s : Nat) (gen : Ext) (hwf : WF c)
+    (hs : s < c.wit.size) (hz : c.val 0 = 0) (p : Pt) (c' : Composer)
+    (hrun : (componentMulGenerator s gen).run c = (.ok p, c')) :
+    (gen.z ≠ 0 ∧ gen.onCurve = true ∧ gen.primeOrder = true) ∧ c.val s < RJ ∧
+    onCurve (genAffine gen) = true ∧ Extends c c' ∧ WF c' ∧
+    p = (c.wit.size + 253 + 1024, c.wit.size + 253 + 1025) ∧
+    (∀ c'', Extends c' c'' → c''.rowsHoldW c''.val c.gates.size c'.gates.size) ∧
+    (∀ c'', Extends c' c'' → ∀ w : Nat → Nat, toF (w 0) = 0 →
+      c''.rowsHoldW w c.gates.size c'.gates.size →
+        (toF (w s)).val < RJ ∧
+        (toF (w p.1), toF (w p.2)) = smulF (toF (w s)).val (toFP (genAffine gen))) := by
+  have hr := componentMulGenerator_run s gen c
+  rw [hrun] at hr
+  by_cases h1 : genOk gen = true
+  · by_cases h2 : RJ ≤ c.val s
+    · rw [if_neg (by simp [h1]), if_pos h2] at hr
+      exact absurd (congrArg Prod.fst hr) (fun h => by cases h)
+    · rw [if_neg (by simp [h1]), if_neg h2] at hr
+      have hp : p = (fbBase c s + 4 * fbN, fbBase c s + 4 * fbN + 1) := by
+        have := congrArg Prod.fst hr; simpa using this
+      have hc' : c' = fbState c s (genAffine gen) (wnaf2 (c.val s)) := congrArg Prod.snd hr
+      have hb : fbBase c s = c.wit.size + 253 := canonOut_wit_size c s _
+      have hg := genOk_on_curve gen h1
+      have hv : c.val s < RJ := by omega
+      rw [hb] at hp
+      subst hc'
+      refine ⟨(genOk_iff gen).mp h1, hv, hg, fbState_extends c s _ _, fbState_wf c s _ _ hwf, hp,
+        fun c'' hext => fixedBase_complete_naf c s _ hwf hs hz hg hv c'' hext, ?_⟩
+      intro c'' hext w h0 hrows
+      obtain ⟨r1, d, -, -, -, -, -, r2⟩ :=
+        Composer.fixedBase_sound c s _ _ hwf hg (wnaf2_length _) c'' hext w h0 hrows
+      rw [hb] at r2
+      rw [hp]
+      exact ⟨r1, r2⟩
+  · have h1f : genOk gen = false := by simpa using h1
+    rw [if_pos h1f] at hr
+    exact absurd (congrArg Prod.fst hr) (fun h => by cases h)
+
+/-- non-vacuity: `component_mul_generator(2, exG)` on `initialized` succeeds. -/
+example : ∃ p c', (componentMulGenerator 2 (Ext.ofAffine exG)).run initialized = (.ok p, c') := by
+  have hr := componentMulGenerator_run 2 (Ext.ofAffine exG) initialized
+  have g1 : ¬ (genOk (Ext.ofAffine exG) = false) := by decide +kernel
+  have g2 : ¬ (RJ ≤ initialized.val 2) := by decide +kernel
+  rw [if_neg g1, if_neg g2] at hr
+  exact ⟨_, _, hr⟩
+
+/-! ## the no-wrap inequality depends on the extracted constants -/
+
+/-- The soundness proof (`fixedBase_sound` → `signed_digits_no_wrap_generated`) uses exactly the
+    following facts about the constants extracted from `fixed_base.rs`; they are re-checked by the
+    kernel whenever `Generated.lean` changes.  With `FIXED_BASE_LEADING_ZERO_ROUNDS` lowered below
+    `2` the first conjunct is false (third conjunct: with one pinned round `2^255 + 2^252 > r`), so
+    the build breaks; likewise if `JUBJUB_SCALAR_BITS` no longer covers `r_J`. -/
+theorem no_wrap_depends_on_constants :
+    (2 ^ (Generated.FIXED_BASE_SIGNED_DIGIT_ROUNDS - Generated.FIXED_BASE_LEADING_ZERO_ROUNDS)
+      + 2 ^ Generated.JUBJUB_SCALAR_BITS ≤ R) ∧
+    (2 ^ (Generated.FIXED_BASE_SIGNED_DIGIT_ROUNDS - 2) + 2 ^ Generated.JUBJUB_SCALAR_BITS ≤ R) ∧
+    ¬ (2 ^ (Generated.FIXED_BASE_SIGNED_DIGIT_ROUNDS - 1) + 2 ^ Generated.JUBJUB_SCALAR_BITS ≤ R) ∧
+    2 ≤ Generated.FIXED_BASE_LEADING_ZERO_ROUNDS ∧
+    Generated.FIXED_BASE_LEADING_ZERO_ROUNDS ≤ Generated.FIXED_BASE_SIGNED_DIGIT_ROUNDS ∧
+    Generated.FIXED_BASE_SIGNED_DIGIT_ROUNDS = 256 ∧
+    RJ ≤ 2 ^ Generated.JUBJUB_SCALAR_BITS ∧
+    Generated.FIXED_BASE_SIGNED_DIGIT_ROUNDS - Generated.FIXED_BASE_LEADING_ZERO_ROUNDS
+      = Generated.JUBJUB_SCALAR_BITS + 1 :=
+  ⟨no_wrap, no_wrap_two, no_wrap_fails_below_two, by decide, leading_le_rounds, rfl,
+    RJ_le_two_pow, by decide⟩
+
+/-- non-vacuity / sharpness: the wrap the bound excludes really exists as an integer — with all
+    256 rounds free, `r` itself is a sum of signed digits (`|Σ| < 2^256`, `r < 2^255`), so without
+    the leading pins the closing equality would hold modulo `r` only. -/
+example : R < 2 ^ 255 ∧ RJ < R ∧ R - RJ < 2 ^ 255 := by decide +kernel
+
 end Plonk.Props.C14
